@@ -43,6 +43,8 @@ DOCUMENTED_REJECTIONS = [
     ("UPUsageError", "This compiler cannot handle this expression"),  # TrajectoryConstraintsRemover: non-propositional body
     ("UPProblemDefinitionError", "could not be removed without changing the problem"),  # ConditionalEffectsRemover (timed)
     ("UPUsageError", "No objects present for the usertype"),       # NegativeConditionsRemover
+    ("UPUsageError", "cannot handle this kind of problem!"),       # CompilersPipeline: a later stage does not support the
+    #                                                                kind produced by the earlier ones (outside the pipeline's kind)
 ]
 
 
@@ -1305,7 +1307,7 @@ def build_cases(ctx, per_compiler, max_insts, adversarial=0.0, only=None):
             stats["generated"] += 1
             stats["family"] = stats.get("family", 0) + 1
             cases.append(Case(len(cases), spec, g).run(max(max_insts, 40)))
-        history_cases(rng, spec, max(3, per_compiler // 4), cases, max_insts, stats)
+        history_cases(rng, spec, max(2, per_compiler // 6), cases, max_insts, stats)
         for _ in range(per_compiler):
             gen = generate(rng, spec, adversarial_names=rng.random() < adversarial)
             if gen is None:
